@@ -17,11 +17,13 @@ import (
 	"fmt"
 	"os"
 	"path/filepath"
+	"sort"
 	"strconv"
 	"strings"
 	"time"
 
 	"grol.io/grol/extensions"
+	"grol.io/grol/object"
 	"verifharness/common"
 	. "verifharness/common"
 )
@@ -58,6 +60,7 @@ var foreignPrelude = []input{
 	{src: `gx = 42; sq = func(a){a*a}`, skel: "(S)"},
 	{src: `bigm = {}; for bgi=0:120 {bigm[bgi]=bgi}; len(bigm)`, skel: "(S (L 11))"},
 	{src: `ug = unjson("func(n){self(n+1)}"); try = func(code){eval(code)}; pf = func(n){vpanic()}`, skel: "(S)"},
+	{src: `xinfo = info; len(xinfo.stack)`, skel: "(S)"},
 }
 
 var foreignFailing = []input{
@@ -70,6 +73,8 @@ var foreignFailing = []input{
 	{src: `eval("pf(1)")`, skel: "(S (C 1 (S p)))", fail: "panic-in-eval"},
 	{src: `try("pf(1)")`, skel: "(S (C 0 (S (C 1 (S p)))))", fail: "panic-in-eval-in-function"},
 	{src: `eval("1+nosuchvar")`, skel: "(S e)", fail: "error-in-eval"},
+	{src: `"abc" | pf(1)`, skel: "(S (C 1 (S p)))", fail: "panic-in-pipe-right-hand-side"},
+	{src: `func(a,b){info.nosuch.x + nosuchname}(1,2)`, skel: "(S (C 2 (S e)))", fail: "error-after-evaluating-info-in-function"},
 	// library functions entered with almost no depth left: the limit is hit inside or just before them
 	{src: `abs(-5)`, skel: "(S d)", fail: "depth-limit-around-abs", depth: 3, neutral: true},
 	{src: `abs(-5)`, skel: "(S d)", fail: "depth-limit-around-abs", depth: 4, neutral: true},
@@ -85,6 +90,7 @@ var foreignTail = []input{
 	{src: `println("gx is", gx); sq(gx)`, skel: "(S (C 1 (S)))"},
 	{src: `sq2 = func(a){a*a+gx}; for fi=0:2 {println(fi, sq2(fi))}`, skel: "(S (L 11 (S (C 1 (S))) (S (C 1 (S)))))"},
 	{src: `println(len(keys({"a":1,"b":2})), abs(-3), fact(4))`, skel: "(S)"},
+	{src: `println(xinfo.stack, len(xinfo.globals))`, skel: "(S)"},
 }
 
 // load()/save() family: small library files in a scratch directory under the run directory (load and save only
@@ -120,6 +126,74 @@ var loadTail = []input{
 	{src: `println(load("walk"))`, skel: "(S)"},
 	{src: `println(load("libok"), lkf(gx))`, skel: "(S)"},
 	{src: `println(save("svk").filename, load("m"))`, skel: "(S)"},
+}
+
+// (1) failures that pass THROUGH catch() and memoizable functions: what the failed input computed on the way must
+// not survive in the function cache; the probes call the same functions with the same arguments afterwards.
+var catchPrelude = []input{
+	{src: `cdeep = func(n){if n<=0 {0} else {1+cdeep(n-1)}}; cg = func(n){catch(cdeep(n))}; cnest = func(k){if k<=0 {cg(6); nosuchname} else {cnest(k-1)}}`, skel: "(S)"},
+	{src: `cslow = func(n){catch(slow(n))}; csl = func(n){catch(sleep(n))}; cuj = func(n){catch(unjson("[" + str(n) + ", cslowx(9)]"))}; cev = func(n){catch(eval("slow(" + str(n) + ")"))}`, skel: "(S)"},
+	{src: `cg(2)`, skel: "(S (C 1 (S (C 1 (S)))))"},
+}
+
+// (2) failures raised inside macro bodies; probes afterwards touch every layer of the State
+var macroPrelude = []input{
+	{src: `mdep = macro(x){ mf = func(n){if n<=0 {0} else {1+mf(n-1)}}; mf(100); quote(unquote(x)) }`, skel: "(S)"},
+	{src: `mmem = macro(x){ [0]*(1<<62); quote(unquote(x)) }`, skel: "(S)"},
+	{src: `merr = macro(x){ 1+nosuchinmacro; quote(unquote(x)) }`, skel: "(S)"},
+	{src: `mspin = macro(x){ for true {}; quote(unquote(x)) }`, skel: "(S)"},
+	{src: `mok = macro(x){ quote(unquote(x) + 1) }; gx = 42; mg = func(n){n*gx}; mg(3)`, skel: "(S (C 1 (S)))"},
+}
+
+type famFail struct {
+	in     input
+	probes []string // inputs submitted later (twice), calling the same functions with the same arguments
+}
+
+func catchFamily() []famFail {
+	var out []famFail
+	for d := 10; d <= 18; d += 2 {
+		out = append(out, famFail{input{src: `cnest(8)`, skel: "(S (C 1 d))", fail: "depth-limit-under-catch-in-nested-calls", depth: d},
+			[]string{`cg(6)`, `cg(6).value + 1`}})
+	}
+	out = append(out,
+		famFail{input{src: fmt.Sprintf(`cslow(%d).nosuch.x + nosuchname`, slowN), skel: "(S e)", fail: "deadline-under-catch", maxMs: 2 * time.Millisecond, neutral: true},
+			[]string{fmt.Sprintf(`cslow(%d)`, slowN)}},
+		famFail{input{src: `csl(0.05).nosuch.x + nosuchname`, skel: "(S e)", fail: "deadline-in-sleep-under-catch", maxMs: 2 * time.Millisecond, neutral: true},
+			[]string{`csl(0.05)`}},
+		famFail{input{src: fmt.Sprintf(`cev(%d).nosuch.x + nosuchname`, slowN), skel: "(S e)", fail: "deadline-in-eval-under-catch", maxMs: 2 * time.Millisecond, neutral: true},
+			[]string{fmt.Sprintf(`cev(%d)`, slowN)}},
+		famFail{input{src: `cg(400).nosuch.x + nosuchname`, skel: "(S (C 1 d))", fail: "depth-overflow-under-catch"},
+			[]string{`cg(400).err`}},
+	)
+	return out
+}
+
+func macroFamily() []famFail {
+	probes := []string{`println(mok(5), gx, mg(3))`}
+	return []famFail{
+		{input{src: `mdep(1)`, skel: "(S d)", fail: "depth-overflow-in-macro-body", depth: 60}, probes},
+		{input{src: `func(){ mdep(1) }()`, skel: "(S d)", fail: "depth-overflow-in-macro-body-in-lambda", depth: 60}, probes},
+		{input{src: `mmem(1)`, skel: "(S p)", fail: "memory-guard-in-macro-body", neutral: true}, probes},
+		{input{src: `merr(1)`, skel: "(S e)", fail: "error-in-macro-body"}, probes},
+		{input{src: `mspin(1)`, skel: "(S e)", fail: "deadline-in-macro-body", maxMs: 4 * time.Millisecond}, probes},
+	}
+}
+
+// one input naming every extension function (evaluating the identifier gives the extension object), and a few used
+var layerProbes []input
+
+func initLayerProbes() {
+	var names []string
+	for k := range object.ExtraFunctions() {
+		names = append(names, k)
+	}
+	sort.Strings(names)
+	layerProbes = []input{
+		{src: "[" + strings.Join(names, ", ") + "]", skel: "(S)"},
+		{src: `println(sprintf("%d-x", 42), str([1,2]), round(3.14), json({"a":1}), abs(-3), split("a,b", ","), len("abc"), first([7]))`, skel: "(S)"},
+		{src: `printf("%03.1f|%s\n", 3.14159, keys({"k":1}))`, skel: "(S)"},
+	}
 }
 
 const slowN = 100000 // a full run of slow(slowN) takes some tens of milliseconds; the failing call gets 2 ms
@@ -421,7 +495,9 @@ func checkHistory(c *Ctx, noReg bool, h []input, baseObs []SessObs, withModel bo
 					kind, d = k, "cached-error-replayed"
 				}
 			}
-			if in.probe != "" {
+			if in.probe == "cache" {
+				d = "stale-cached-result"
+			} else if in.probe != "" {
 				d = in.probe + "-budget-shrunk"
 			}
 			c.Fail("trace-after-"+kind+":"+d, encodeHist(noReg, h),
@@ -570,6 +646,50 @@ func runC10(c *Ctx) {
 				// neutral low-depth inputs have an outcome that is not predicted: no model line for them
 				checkHistory(c, noReg, h, runHistory(c, noReg, base), !f.neutral)
 				c.Count("foreign-or-reentrant=" + f.fail)
+			}
+		}
+	}
+	// failures through catch()/memoized functions and inside macro bodies, then probes on every layer of the State
+	initLayerProbes()
+	nFam := 2
+	if c.Thorough() {
+		nFam = 30
+	}
+	for i := 0; i < nFam; i++ {
+		for which, fam := range [][]famFail{catchFamily(), macroFamily()} {
+			for fi, ff := range fam {
+				for m := 1; m <= 2; m++ {
+					g := &hgen{r: c.R}
+					base := append([]input{}, preludeC10...)
+					base = append(base, memoPrelude[0])
+					if which == 0 {
+						base = append(base, catchPrelude...)
+					} else {
+						base = append(base, macroPrelude...)
+					}
+					h := append([]input{}, base...)
+					for k := 0; k < m; k++ {
+						h = append(h, ff.in)
+					}
+					for j := c.R.Intn(3); j > 0; j-- {
+						in := g.next()
+						base, h = append(base, in), append(h, in)
+					}
+					noReg := (i+fi)%4 == 3
+					var tail []input
+					for rep := 0; rep < 2; rep++ {
+						for _, p := range ff.probes {
+							tail = append(tail, input{src: p, skel: "(S)", probe: "cache"})
+						}
+					}
+					tail = append(tail, layerProbes...)
+					tail = append(tail, input{src: `cnt = cnt + 1; println(cnt)`, skel: "(S)"})
+					tail = append(tail, budgetProbes(c, noReg)...)
+					base, h = append(base, tail...), append(h, tail...)
+					// skeletons of the probe calls are not written out (calls, catch): no model line for these histories
+					checkHistory(c, noReg, h, runHistory(c, noReg, base), false)
+					c.Count("catch-or-macro-family=" + ff.in.fail)
+				}
 			}
 		}
 	}
